@@ -58,7 +58,7 @@ func c13_1(c *core.Ctx, p *core.Prog) {
 			inner = cl
 		case cl.Call.StaticCallee() != nil && core.FnPkgPath(cl.Call.StaticCallee()) == pkgBuilder && f != nil && sigIs(f, nil, []tp{isBool}):
 			upToDate = append(upToDate, cl)
-		case cl.Call.StaticCallee() != nil && core.FnPkgPath(cl.Call.StaticCallee()) == pkgBuilder && len(cl.Call.Args) == 3 && core.TypeName(cl.Call.Args[1].Type()) == "Field":
+		case cl.Call.StaticCallee() != nil && core.FnPkgPath(cl.Call.StaticCallee()) == pkgBuilder && isDictScanFn(cl.Call.StaticCallee()):
 			scans = append(scans, cl)
 		}
 	})
@@ -70,7 +70,7 @@ func c13_1(c *core.Ctx, p *core.Prog) {
 	scan := scans[0]
 	// the scan ranges over all top-level fields of the record builder's schema
 	cov, cmsg := false, "the dictionary scan does not range over all top-level columns"
-	core.BackSlice(scan.Call.Args[1], func(v ssa.Value) bool {
+	core.BackSlice(scanFieldArg(scan), func(v ssa.Value) bool {
 		acc, ok := core.ElemAccessOf(v)
 		if !ok || acc.Phi == nil {
 			return true
@@ -89,8 +89,8 @@ func c13_1(c *core.Ctx, p *core.Prog) {
 		return false
 	})
 	// same index for field and column
-	fa, okF := core.ElemAccessOf(firstElem(scan.Call.Args[1]))
-	ca, okC := core.ElemAccessOf(firstElem(scan.Call.Args[2]))
+	fa, okF := core.ElemAccessOf(firstElem(scanFieldArg(scan)))
+	ca, okC := core.ElemAccessOf(firstElem(scanColumnArg(scan)))
 	if okF && okC && (fa.Phi != ca.Phi || fa.Off != ca.Off) {
 		cov, cmsg = false, "the scan pairs a field with the column of a different index"
 	}
@@ -266,16 +266,7 @@ func c13_2(c *core.Ctx, p *core.Prog) {
 	// the scan function: recursive method of RecordBuilderExt taking (*arrow.Field, arrow.Array)
 	var scan *ssa.Function
 	for _, fn := range p.FuncsIn(func(pp string) bool { return pp == pkgBuilder }) {
-		if fn.Signature.Recv() == nil || fn.Signature.Params().Len() != 2 || core.TypeName(fn.Signature.Params().At(0).Type()) != "Field" {
-			continue
-		}
-		rec := false
-		core.EachCall(fn, func(ci ssa.CallInstruction) {
-			if ci.Common().StaticCallee() == fn {
-				rec = true
-			}
-		})
-		if rec {
+		if isDictScanFn(fn) {
 			scan = fn
 		}
 	}
@@ -309,7 +300,13 @@ func c13_2(c *core.Ctx, p *core.Prog) {
 	// the stream carried before is a dictionary that grows unobserved
 	{
 		var dictMapF *types.Var
-		if st, ok := core.NamedOf(scan.Signature.Recv().Type()).Underlying().(*types.Struct); ok {
+		var recvNamed *types.Named
+		if scan.Signature.Recv() != nil {
+			recvNamed = core.NamedOf(scan.Signature.Recv().Type())
+		}
+		if recvNamed == nil {
+			// a package function is handed what it may consult; nothing else of the builder is in reach
+		} else if st, ok := recvNamed.Underlying().(*types.Struct); ok {
 			for k := 0; k < st.NumFields(); k++ {
 				if m, ok := st.Field(k).Type().Underlying().(*types.Map); ok && strings.Contains(core.TypeName(m.Elem()), "DictionaryField") {
 					dictMapF = st.Field(k)
@@ -325,7 +322,7 @@ func c13_2(c *core.Ctx, p *core.Prog) {
 				}
 				core.BackSlice(iff.Cond, func(v ssa.Value) bool {
 					if fa, ok := v.(*ssa.FieldAddr); ok {
-						if core.NamedOf(fa.X.Type()) == core.NamedOf(scan.Signature.Recv().Type()) && core.FieldVar(fa) != dictMapF {
+						if recvNamed != nil && core.NamedOf(fa.X.Type()) == recvNamed && core.FieldVar(fa) != dictMapF {
 							bad = append(bad, fmt.Sprintf("%s (reads %s)", p.Pos(iff.Cond.Pos()), core.FieldName(fa)))
 							return false
 						}
@@ -388,13 +385,13 @@ func c13_2(c *core.Ctx, p *core.Prog) {
 			for _, cl := range recs {
 				cl := cl
 				func() {
-					fAcc, ok := core.ElemAccessOf(firstElem(cl.Call.Args[1]))
+					fAcc, ok := core.ElemAccessOf(firstElem(scanFieldArg(cl)))
 					if !ok || fAcc.Phi == nil {
 						c.Undecided(key+"|pairing", p.Pos(cl.Pos()), core.FuncName(scan), "the child field handed to the recursive scan is not an element of a field list indexed by a loop variable")
 						return
 					}
 					var child *ssa.Call
-					core.BackSlice(cl.Call.Args[2], func(v ssa.Value) bool {
+					core.BackSlice(scanColumnArg(cl), func(v ssa.Value) bool {
 						if c2, ok := v.(*ssa.Call); ok && child == nil && len(core.CallArgs(c2)) >= 1 {
 							if f := core.CalleeObj(c2); f != nil && f.Name() == "Field" {
 								child = c2
@@ -1203,4 +1200,63 @@ func indexFunctionOf(p *core.Prog) *ssa.Function {
 		})
 	}
 	return out
+}
+
+// isDictScanFn: a function of the builder package that takes a *arrow.Field and an arrow.Array (whatever else it
+// takes, method or not) and calls itself: the recursive dictionary scan.
+func isDictScanFn(fn *ssa.Function) bool {
+	if fn == nil || len(fn.Blocks) == 0 || fn.Parent() != nil {
+		return false
+	}
+	hasField, hasArray := false, false
+	for _, prm := range fn.Params {
+		t := prm.Type()
+		if pt, ok := t.(*types.Pointer); ok && core.TypeName(pt.Elem()) == "Field" && strings.HasPrefix(core.TypePkgPath(pt.Elem()), core.ArrowPath) {
+			hasField = true
+		}
+		if core.TypeName(t) == "Array" && strings.HasPrefix(core.TypePkgPath(t), core.ArrowPath) {
+			hasArray = true
+		}
+	}
+	if !hasField || !hasArray {
+		return false
+	}
+	rec := false
+	core.EachCall(fn, func(ci ssa.CallInstruction) {
+		if ci.Common().StaticCallee() == fn {
+			rec = true
+		}
+		// one helper per composite kind that calls the scan back
+		if h := ci.Common().StaticCallee(); h != nil && h != fn && len(h.Blocks) > 0 && core.FnPkgPath(h) == core.FnPkgPath(fn) {
+			core.EachCall(h, func(cj ssa.CallInstruction) {
+				if cj.Common().StaticCallee() == fn {
+					rec = true
+				}
+			})
+		}
+	})
+	return rec
+}
+
+// scanFieldArg / scanColumnArg: the *arrow.Field and the arrow.Array argument of a call of the dictionary scan,
+// wherever they stand in the argument list.
+func scanFieldArg(cl *ssa.Call) ssa.Value {
+	for _, a := range cl.Call.Args {
+		if pt, ok := a.Type().(*types.Pointer); ok && core.TypeName(pt.Elem()) == "Field" {
+			return a
+		}
+	}
+	if len(cl.Call.Args) > 1 {
+		return cl.Call.Args[1]
+	}
+	return cl.Call.Args[0]
+}
+
+func scanColumnArg(cl *ssa.Call) ssa.Value {
+	for _, a := range cl.Call.Args {
+		if core.TypeName(a.Type()) == "Array" && strings.HasPrefix(core.TypePkgPath(a.Type()), core.ArrowPath) {
+			return a
+		}
+	}
+	return cl.Call.Args[len(cl.Call.Args)-1]
 }
